@@ -316,8 +316,10 @@ def _bool_leaves(t):
 def merge_semantics(fi):
     """Find the statement that merges a spliced-out node's edge length into its child's and evaluate it
     symbolically for the four (removed is None, child is None) cases.  Returns (stmt, removed, child, table)."""
+    edge_names = {a.targets[0].id for a in ast.walk(fi.node) if isinstance(a, ast.Assign) and isinstance(a.targets[0], ast.Name) and isinstance(a.value, ast.Attribute) and a.value.attr in ("edge", "_edge")}
+
     def is_len(e):
-        return isinstance(e, ast.Attribute) and e.attr == "length" and isinstance(e.value, ast.Attribute) and e.value.attr == "edge"
+        return isinstance(e, ast.Attribute) and e.attr == "length" and ((isinstance(e.value, ast.Attribute) and e.value.attr == "edge") or (isinstance(e.value, ast.Name) and e.value.id in edge_names))
 
     pm = parent_map(fi.node)
     for aug in ast.walk(fi.node):
